@@ -681,10 +681,19 @@ func (index *setIndex) CheckIntegrity(ctx MutateContext, fix bool, errorSink fun
 		valuesCursor := setBucket.Cursor()
 		for val, _ := valuesCursor.First(); val != nil; val, _ = valuesCursor.Next() {
 			_, value := GetTypeAndValue(val)
-			idxBucket := index.getIndexBucket(tx, value)
+			// look the index entry up without creating the value bucket, so that a check-only run doesn't
+			// leave an empty index key behind
+			var idxBucket *TypedBucket
+			if indexBaseBucket := Path(tx, index.indexPath...); indexBaseBucket != nil {
+				idxBucket = indexBaseBucket.GetBucketByKey(value)
+			}
 			key := PrependFieldType(TypeString, id)
-			if !idxBucket.IsKeyPresent(key) {
+			if idxBucket == nil || !idxBucket.IsKeyPresent(key) {
 				if fix {
+					idxBucket = index.getIndexBucket(tx, value)
+					if idxBucket.HasError() {
+						return idxBucket.GetError()
+					}
 					if err := idxBucket.Put(key, nil); err != nil {
 						return err
 					}
